@@ -1,7 +1,6 @@
 /-
   C14Steps — the vector-index invariant `VInv` (MvProps/C14Lemmas.lean) through drop / open / crash
-  recovery (as found and repaired) / vacuum / finalize / doctor / batch / ticket, one step of
-  `stepCfg`, whole histories; and the frame-table simulation (`abs`, `Inv`) for `stepCfg`.
+  recovery / vacuum / finalize / doctor / batch / ticket, one step of `Core.step`, whole histories.
 -/
 import MvProps.C14Lemmas
 namespace Mv.Core
@@ -59,23 +58,29 @@ theorem VOpen.quiet {m0 : Mem} {E : List (Option Emb)} (h : VOpen m0 E) (hq : On
     pv := h.pv, g := h.g hq, lex := h.lex, d := fun _ => hq, b := h.b, b' := h.b'
     a := by rw [pendEmbs_onlyLex _ hq]; rintro ⟨x, hx, _⟩; cases hx }
 
-theorem pendingHasEmb_iff (recs : List (Nat × Entry)) :
-    pendingHasEmb recs = true ↔ ∃ x ∈ pendEmbs recs, x.isSome = true := by
-  induction recs with
-  | nil => simp [pendingHasEmb, pendEmbs]
-  | cons r rs ih =>
-    have hc : pendingHasEmb (r :: rs) = (r.2.hasEmb || pendingHasEmb rs) := by
-      simp [pendingHasEmb]
-    rw [hc, Bool.or_eq_true, ih]
-    obtain ⟨sq, e⟩ := r
-    cases e with
-    | lex => simp [pendEmbs, insEmb, Entry.hasEmb]
-    | tombstone t => simp [pendEmbs, insEmb, Entry.hasEmb]
-    | insert i => simp [pendEmbs, insEmb, Entry.hasEmb]
+theorem enableVecForEmbs_fields (ma : Mem) (embs : List VecEnt) :
+    (ma.enableVecForEmbs embs).frames = ma.frames ∧ (ma.enableVecForEmbs embs).vec = ma.vec ∧
+    (ma.enableVecForEmbs embs).lexEnabled = ma.lexEnabled ∧
+    (embs ≠ [] → (ma.enableVecForEmbs embs).vecEnabled = true) ∧
+    (ma.vecEnabled = true → (ma.enableVecForEmbs embs).vecEnabled = true) ∧
+    (embs = [] → ma.enableVecForEmbs embs = ma) := by
+  unfold Mem.enableVecForEmbs
+  split
+  · exact ⟨rfl, rfl, rfl, fun _ => rfl, fun _ => rfl, fun h => by rename_i hc; simp [h] at hc⟩
+  · rename_i hc
+    refine ⟨rfl, rfl, rfl, fun h => ?_, fun h => h, fun _ => rfl⟩
+    cases hve : ma.vecEnabled with
+    | true => rfl
+    | false =>
+      exfalso; apply hc
+      have : embs.isEmpty = false := by
+        cases hx : embs with
+        | nil => exact absurd hx h
+        | cons _ _ => rfl
+      simp [this, hve]
 
-/-- `recover_wal` of the shared model: all pending records applied, index rebuilt, checkpoint -/
-theorem recoverWal_vinv (m0 : Mem) (E : List (Option Emb)) (ho : VOpen m0 E) (ft : Nat)
-    (hA : (∃ x ∈ pendEmbs m0.pending, x.isSome = true) → m0.vecEnabled = true) :
+/-- `recover_wal` (with repair 5c6fd4b): all pending records applied, index rebuilt, checkpoint -/
+theorem recoverWal_vinv (m0 : Mem) (E : List (Option Emb)) (ho : VOpen m0 E) (ft : Nat) :
     VInv (m0.recoverWal ft) E := by
   unfold Mem.recoverWal
   split
@@ -86,23 +91,32 @@ theorem recoverWal_vinv (m0 : Mem) (E : List (Option Emb)) (ho : VOpen m0 E) (ft
   · obtain ⟨ma, δ, h1, _, _, _⟩ := applyRecords_view m0 m0.pending true ho.ok
     have ha := applied_spec m0 E ho.toVBase true ma δ h1
     obtain ⟨_, _, _, hne, hp, _, _, hve, _, _, _, hlex⟩ := applyRecords_vec m0 m0.pending true ma δ h1 ho.ok
+    obtain ⟨ef, ev, el, e1, e2, e3⟩ := enableVecForEmbs_fields ma δ.embs
     simp only [h1]
     by_cases hd : δ.nonEmpty = true
     · simp only [hd, if_true]
-      have hr := rebuilt_vinv m0 E ma δ ha ma rfl rfl (hlex.trans ho.lex) (by
+      have hr := rebuilt_vinv m0 E ma δ ha (ma.enableVecForEmbs δ.embs) ef ev (el.trans (hlex.trans ho.lex)) (by
         rintro (h | h)
-        · rw [hve]; exact hA (ha.embsSome h)
-        · rw [hve]; apply ho.b
+        · exact e1 h
+        · apply e2
+          rw [hve]; apply ho.b
           intro h0
           have := ha.sub
           rw [h0] at this
           exact h (List.eq_nil_of_sublist_nil this)) δ.inserted ft
       -- whatever follows the rebuild (sketch track, footer) touches nothing the invariant looks at
-      generalize ma.rebuildIndexes δ.embs δ.inserted ft = A at hr ⊢
+      generalize (ma.enableVecForEmbs δ.embs).rebuildIndexes δ.embs δ.inserted ft = A at hr ⊢
       exact hr.congr rfl rfl rfl rfl rfl rfl rfl rfl rfl (Or.inl rfl)
     · have hd' : δ.nonEmpty = false := by simpa using hd
       simp only [hd', Bool.false_eq_true, if_false]
       have hq : OnlyLex m0.pending := hne hd'
+      have hembs : δ.embs = [] := by
+        cases hx : δ.embs with
+        | nil => rfl
+        | cons a as =>
+          obtain ⟨x, hx', _⟩ := ha.embsSome (by simp [hx])
+          rw [pendEmbs_onlyLex _ hq] at hx'; cases hx'
+      rw [e3 hembs]
       have h1v : VLe ma m0 := applied_onlyLex_vle m0 true ma δ h1 ho.ok hq
       have hq1 : OnlyLex (ma.flushTantivy ft).pending := by
         obtain ⟨l, hl, hpl⟩ := (flushTantivy_skel ma ft).pending
@@ -128,90 +142,23 @@ theorem recoverWal_clean (m0 : Mem) (ft : Nat) (hc : m0.dirty = false) (hok : Al
     simp only [h1]
     rfl
 
-theorem enableVecForReplay_fields (fix : Bool) (m0 : Mem) :
-    (m0.enableVecForReplay fix).frames = m0.frames ∧ (m0.enableVecForReplay fix).pending = m0.pending ∧
-    (m0.enableVecForReplay fix).pendingInserts = m0.pendingInserts ∧ (m0.enableVecForReplay fix).dirty = m0.dirty ∧
-    (m0.enableVecForReplay fix).vec = m0.vec := by
-  unfold Mem.enableVecForReplay
-  split <;> exact ⟨rfl, rfl, rfl, rfl, rfl⟩
-
-theorem enableVecForReplay_vopen (fix : Bool) (m0 : Mem) (E : List (Option Emb)) (ho : VOpen m0 E) :
-    VOpen (m0.enableVecForReplay fix) E ∧
-    (fix = true → (∃ x ∈ pendEmbs m0.pending, x.isSome = true) → (m0.enableVecForReplay fix).vecEnabled = true) := by
-  unfold Mem.enableVecForReplay
-  split
-  · rename_i hc
-    simp only [Bool.and_eq_true, Bool.not_eq_true'] at hc
-    refine ⟨?_, fun _ _ => rfl⟩
-    exact { ok := ho.ok, lenE := ho.lenE, pend := ho.pend, mem := ho.mem, nodup := ho.nodup, pi0 := ho.pi0, pv := ho.pv
-            g := fun hq => by
-              exfalso
-              obtain ⟨x, hx, _⟩ := (pendingHasEmb_iff _).mp hc.1.2
-              rw [pendEmbs_onlyLex _ hq] at hx; cases hx
-            lex := ho.lex, b := fun _ => rfl, b' := ho.b', clean := ho.clean }
-  · rename_i hc
-    refine ⟨ho, fun hfix hex => ?_⟩
-    cases hve : m0.vecEnabled with
-    | true => rfl
-    | false =>
-      exfalso; apply hc
-      simp [hfix, (pendingHasEmb_iff _).mpr hex, hve]
-
-theorem recoverWalCfg_vinv (fix : Bool) (m0 : Mem) (E : List (Option Emb)) (ho : VOpen m0 E) (ft : Nat)
-    (hA : fix = true ∨ ((∃ x ∈ pendEmbs m0.pending, x.isSome = true) → m0.vecEnabled = true)) :
-    VInv (m0.recoverWalCfg fix ft) E := by
-  obtain ⟨h1, h2⟩ := enableVecForReplay_vopen fix m0 E ho
-  obtain ⟨_, hp, _, _, _⟩ := enableVecForReplay_fields fix m0
-  refine recoverWal_vinv _ E h1 ft ?_
-  rw [hp]
-  intro hex
-  rcases hA with hfix | hA
-  · exact h2 hfix hex
-  · have := hA hex
-    unfold Mem.enableVecForReplay
-    split
-    · rfl
-    · exact this
-
-theorem recoverWalCfg_clean (fix : Bool) (m0 : Mem) (ft : Nat) (hc : m0.dirty = false) (hok : AllOk m0.frames.length m0.pending) :
-    (m0.recoverWalCfg fix ft).dirty = false := by
-  obtain ⟨hf, hp, _, hd, _⟩ := enableVecForReplay_fields fix m0
-  exact recoverWal_clean _ ft (by rw [hd]; exact hc) (by rw [hf, hp]; exact hok)
-
 theorem loadTracks_vopen (m0 : Mem) (E : List (Option Emb)) (ho : VOpen m0 E) : VOpen m0.loadTracks E :=
   { ok := ho.ok, lenE := ho.lenE, pend := ho.pend, mem := ho.mem, nodup := ho.nodup, pi0 := ho.pi0, pv := ho.pv, g := ho.g,
     lex := ho.lex, b := ho.b, b' := ho.b', clean := ho.clean }
 
-theorem openFromCfg_vinv (fix : Bool) (m : Mem) (E : List (Option Emb)) (hv : VInv m E) (ft : Nat)
-    (hA : fix = true ∨ m.dirty = false) :
-    VInv (m.openFromCfg fix ft) E ∧ (m.openFromCfg fix ft).dirty = false := by
+/-- `open_locked`: whatever was pending is replayed, embeddings included -/
+theorem openFrom_vinv (m : Mem) (E : List (Option Emb)) (hv : VInv m E) (ft : Nat) :
+    VInv (m.openFrom ft) E ∧ (m.openFrom ft).dirty = false := by
   have ho := loadTracks_vopen _ E (openLoad_vopen m E hv)
-  have hA' : fix = true ∨ ((∃ x ∈ pendEmbs m.openLoad.loadTracks.pending, x.isSome = true) → m.openLoad.loadTracks.vecEnabled = true) := by
-    rcases hA with h | h
-    · exact Or.inl h
-    · right
-      have hq : OnlyLex m.openLoad.loadTracks.pending := hv.d h
-      rw [pendEmbs_onlyLex _ hq]
-      rintro ⟨x, hx, _⟩; cases hx
-  exact ⟨recoverWalCfg_vinv fix m.openLoad.loadTracks E ho ft hA', recoverWalCfg_clean fix m.openLoad.loadTracks ft rfl ho.ok⟩
-
-theorem recoverWal_eq (m : Mem) (ft : Nat) : m.recoverWal ft = m.recoverWalCfg false ft := by
-  unfold Mem.recoverWalCfg Mem.enableVecForReplay
-  simp
-
-theorem openFrom_eq (m : Mem) (ft : Nat) : m.openFrom ft = m.openFromCfg false ft := by
-  unfold Mem.openFrom Mem.openFromCfg
-  rw [recoverWal_eq]
+  exact ⟨recoverWal_vinv m.openLoad.loadTracks E ho ft, recoverWal_clean m.openLoad.loadTracks ft rfl ho.ok⟩
 
 theorem reopen_vinv (m : Mem) (E : List (Option Emb)) (hv : VInv m E) (a b : Nat) : VInv (m.reopen a b).1 E := by
-  obtain ⟨h1, h2⟩ := dropHandle_vinv m E hv a
-  show VInv ((m.dropHandle a).openFrom b) E
-  rw [openFrom_eq]
-  exact (openFromCfg_vinv false _ E h1 b (Or.inr h2)).1
+  obtain ⟨h1, _⟩ := dropHandle_vinv m E hv a
+  exact (openFrom_vinv _ E h1 b).1
 
-theorem crashCfg_vinv (m : Mem) (E : List (Option Emb)) (hv : VInv m E) (ft : Nat) : VInv (m.crashCfg true ft).1 E := by
+theorem crash_vinv (m : Mem) (E : List (Option Emb)) (hv : VInv m E) (ft : Nat) : VInv (m.crash ft).1 E := by
   have h0 : VInv ({ m with queue := m.pQueue } : Mem) E := hv.congr rfl rfl rfl rfl rfl rfl rfl rfl rfl (Or.inl rfl)
-  exact (openFromCfg_vinv true _ E h0 ft (Or.inl rfl)).1
+  exact (openFrom_vinv _ E h0 ft).1
 
 /-- `rebuild_indexes(&[], &[])` (finalize, vacuum, doctor) keeps the index as it is -/
 theorem rebuildNil_vinv (m : Mem) (E : List (Option Emb)) (hv : VInv m E) (ft : Nat) : VInv (m.rebuildIndexes [] [] ft) E := by
@@ -267,7 +214,14 @@ theorem vacuum_vinv (m : Mem) (E : List (Option Emb)) (hv : VInv m E) (a b : Nat
   unfold Mem.vacuum
   split
   · have h1 := (compactFrames_vle (m.commit a).1).vinv hc
-    exact ⟨rebuildNil_vinv _ E h1 b, by rw [rebuildNil_dirty _ b h1.lex]; exact hcd⟩
+    have h2 := rebuildNil_vinv _ E h1 b
+    have h2d : ((m.commit a).1.compactFrames.rebuildIndexes [] [] b).dirty = false := by
+      rw [rebuildNil_dirty _ b h1.lex]; exact hcd
+    have hq := h2.d h2d
+    have h3 : VInv ((m.commit a).1.compactFrames.rebuildIndexes [] [] b).checkpoint E := (checkpoint_vle _ hq).vinv h2
+    refine ⟨?_, rfl⟩
+    generalize (m.commit a).1.compactFrames.rebuildIndexes [] [] b = A at h3 ⊢
+    exact h3.congr rfl rfl rfl rfl rfl rfl rfl rfl rfl (Or.inl rfl)
   · exact ⟨hc, hcd⟩
 
 theorem resetWal_vinv (m : Mem) (E : List (Option Emb)) (hv : VInv m E) (hd : m.dirty = false) : VInv m.resetWal E :=
@@ -343,23 +297,22 @@ theorem doctorRebuild_vinv (m : Mem) (E : List (Option Emb)) (hv : VInv m E) (hd
 
 theorem doctor_vinv (m : Mem) (E : List (Option Emb)) (hv : VInv m E) (vac rt rl rv : Bool) (a b c d : Nat) :
     VInv (m.doctor vac rt rl rv a b c d).1 E := by
-  obtain ⟨h1, h1d⟩ := dropHandle_vinv m E hv a
-  have h2 : VInv ((m.dropHandle a).openFrom b) E ∧ ((m.dropHandle a).openFrom b).dirty = false := by
-    rw [openFrom_eq]; exact openFromCfg_vinv false _ E h1 b (Or.inr h1d)
+  obtain ⟨h1, _⟩ := dropHandle_vinv m E hv a
+  have h2 := openFrom_vinv _ E h1 b
   have h3 : VInv (m.doctorStage1 vac a b c) E ∧ (m.doctorStage1 vac a b c).dirty = false := by
     unfold Mem.doctorStage1
     split
     · exact vacuum_vinv _ E h2.1 b c
     · exact h2
-  have h4 : VInv ((m.doctorStage1 vac a b c).doctorStage2 (rt || rl || rv) rv c) E := by
+  have h4 : VInv ((m.doctorStage1 vac a b c).doctorStage2 (rt || rl || rv) rv c) E ∧
+      ((m.doctorStage1 vac a b c).doctorStage2 (rt || rl || rv) rv c).dirty = false := by
     unfold Mem.doctorStage2
     split
-    · exact doctorRebuild_vinv _ E h3.1 h3.2 rv c
-    · exact h3.1
-  obtain ⟨h5, h5d⟩ := dropHandle_vinv _ E h4 c
-  show VInv ((((m.doctorStage1 vac a b c).doctorStage2 (rt || rl || rv) rv c).dropHandle c).openFrom d) E
-  rw [openFrom_eq]
-  exact (openFromCfg_vinv false _ E h5 d (Or.inr h5d)).1
+    · exact ⟨doctorRebuild_vinv _ E h3.1 h3.2 rv c, rfl⟩
+    · exact h3
+  have h4r := resetWal_vinv _ E h4.1 h4.2
+  obtain ⟨h5, _⟩ := dropHandle_vinv _ E h4r c
+  exact (openFrom_vinv _ E h5 d).1
 
 theorem create_vinv : VInv Mem.create [] :=
   { ok := fun r hr => by cases hr
@@ -403,8 +356,8 @@ def OpOk : Op → Prop
 
 theorem ite_self' {α : Type} (c : Prop) [Decidable c] (a : α) : (if c then a else a) = a := by split <;> rfl
 
-theorem stepCfg_vinv (m : Mem) (E : List (Option Emb)) (op : Op) (hv : VInv m E) (hok : OpOk op) :
-    VInv (stepCfg true m op).1 (if (stepCfg true m op).2.isAck then embStep E op else E) := by
+theorem step_vinv (m : Mem) (E : List (Option Emb)) (op : Op) (hv : VInv m E) (hok : OpOk op) :
+    VInv (step m op).1 (if (step m op).2.isAck then embStep E op else E) := by
   cases op with
   | create => exact create_vinv
   | put a t => exact put_vinv m E hv a t hok
@@ -416,7 +369,7 @@ theorem stepCfg_vinv (m : Mem) (E : List (Option Emb)) (op : Op) (hv : VInv m E)
     show VInv (m.commit ft).1 (if (m.commit ft).2.isAck then E else E)
     rw [ite_self']; exact commit_vinv m E hv ft
   | reopen a b => exact reopen_vinv m E hv a b
-  | crash ft => exact crashCfg_vinv m E hv ft
+  | crash ft => exact crash_vinv m E hv ft
   | beginBatch d ws => exact (beginBatch_vle m d ws).vinv hv
   | endBatch => exact (endBatch_vle m).vinv hv
   | commitSkipIndexes => exact absurd hok id
@@ -432,58 +385,11 @@ theorem stepCfg_vinv (m : Mem) (E : List (Option Emb)) (op : Op) (hv : VInv m E)
     show VInv (m.applyTicket s c b f).1 (if (m.applyTicket s c b f).2.isAck then E else E)
     rw [ite_self']; exact (applyTicket_vle m s c b f).vinv hv
 
-theorem runCfg_vinv (m : Mem) (E : List (Option Emb)) (ops : List Op) (hv : VInv m E) (hok : ∀ op ∈ ops, OpOk op) :
-    VInv (runCfg true m ops) (embRun E (traceCfg true m ops)) := by
+theorem run_vinv (m : Mem) (E : List (Option Emb)) (ops : List Op) (hv : VInv m E) (hok : ∀ op ∈ ops, OpOk op) :
+    VInv (run m ops) (embRun E (trace m ops)) := by
   induction ops generalizing m E with
   | nil => exact hv
   | cons op ops ih =>
-    exact ih _ _ (stepCfg_vinv m E op hv (hok op (by simp))) (fun o ho => hok o (by simp [ho]))
-
-/-! ### the frame table of `stepCfg` histories (the C01 simulation, with either crash recovery) -/
-
-theorem recoverWalCfg_spec (fix : Bool) (m1 : Mem) (ft : Nat) (hok : AllOk m1.frames.length m1.pending) (hpi : m1.pendingInserts = 0) :
-    Quiet (m1.recoverWalCfg fix ft) ∧ (m1.recoverWalCfg fix ft).frames.map view = sApply (m1.frames.map view) m1.pending := by
-  obtain ⟨hf, hp, hpi', _, _⟩ := enableVecForReplay_fields fix m1
-  have := recoverWal_spec (m1.enableVecForReplay fix) ft (by rw [hf, hp]; exact hok) (by rw [hpi']; exact hpi)
-  rw [hf, hp] at this
-  exact this
-
-theorem crashCfg_sim (fix : Bool) (m : Mem) (ft : Nat) (hi : Inv m) :
-    Quiet (m.crashCfg fix ft).1 ∧ abs (m.crashCfg fix ft).1 = abs m ∧ (m.crashCfg fix ft).1.frames.map view = abs m := by
-  obtain ⟨hq, hf⟩ := recoverWalCfg_spec fix ({ m with queue := m.pQueue } : Mem).openLoad.loadTracks ft hi.ok rfl
-  have hf' : (m.crashCfg fix ft).1.frames.map view = abs m := hf
-  have hq' : Quiet (m.crashCfg fix ft).1 := hq
-  exact ⟨hq', by rw [hq'.abs_eq, hf'], hf'⟩
-
-/-- ONE STEP of `stepCfg`: the C01 simulation holds with either crash recovery -/
-theorem core_stepCfg (fix : Bool) (m : Mem) (op : Op) (hi : Inv m) :
-    Inv (stepCfg fix m op).1 ∧
-    abs (stepCfg fix m op).1 = (if (stepCfg fix m op).2.isAck then specStep (abs m) op else abs m) := by
-  by_cases hc : ∃ ft, op = Op.crash ft
-  · obtain ⟨ft, rfl⟩ := hc
-    obtain ⟨hq, ha, _⟩ := crashCfg_sim fix m ft hi
-    exact ⟨hq.inv, by show abs (m.crashCfg fix ft).1 = _; rw [ha]; rfl⟩
-  · have : stepCfg fix m op = step m op := by
-      cases op with
-      | crash ft => exact absurd ⟨ft, rfl⟩ hc
-      | _ => rfl
-    rw [this]; exact core_step m op hi
-
-theorem runCfg_refines (fix : Bool) (m : Mem) (ops : List Op) (hi : Inv m) :
-    Inv (runCfg fix m ops) ∧ abs (runCfg fix m ops) = specRun (abs m) (traceCfg fix m ops) := by
-  induction ops generalizing m with
-  | nil => exact ⟨hi, rfl⟩
-  | cons op ops ih =>
-    obtain ⟨h1, h2⟩ := core_stepCfg fix m op hi
-    obtain ⟨h3, h4⟩ := ih (stepCfg fix m op).1 h1
-    refine ⟨h3, ?_⟩
-    show abs (runCfg fix (stepCfg fix m op).1 ops) = specRun (if (stepCfg fix m op).2.isAck then specStep (abs m) op else abs m) (traceCfg fix (stepCfg fix m op).1 ops)
-    rw [h4, h2]
-
-theorem runCfg_append (fix : Bool) (m : Mem) (ops : List Op) (op : Op) :
-    runCfg fix m (ops ++ [op]) = (stepCfg fix (runCfg fix m ops) op).1 := by
-  induction ops generalizing m with
-  | nil => rfl
-  | cons o os ih => exact ih (stepCfg fix m o).1
+    exact ih _ _ (step_vinv m E op hv (hok op (by simp))) (fun o ho => hok o (by simp [ho]))
 
 end Mv.Core
